@@ -427,6 +427,10 @@ class Constructs(abstract.Container):
         if (
             construct_type not in self._ignore
             and construct_type in self._key_base
+            # A copy made without the ignored construct types (the
+            # copy of a domain, a collection filtered by type) has
+            # no dictionary for them
+            and construct_type in self._constructs
         ) or construct_type is None:
             return construct_type
 
